@@ -75,7 +75,10 @@ def main():
             from . import replay as _replay
 
             sys.exit(_replay.run(ctx, args.replay))
-        res = mod.run(ctx)
+        # two runs of the same property against the same tree share generated file names in the
+        # build directory: serialise them
+        with common.Lock(d / f".lock.run.{prop}"):
+            res = mod.run(ctx)
         obligations = n_thm + res.get("instance_obligations", 0)
         discharged = (n_thm if rep["ok"] else 0) + res.get("instance_discharged", 0)
         coverage.update(res.get("coverage", {}))
